@@ -110,11 +110,11 @@ def label_facts(label: str) -> Dict[str, Any]:
     lines = [ln.strip() for ln in text.split("\n") if ln.strip()]
     facts: Dict[str, Any] = {"name": lines[0] if lines else "", "asg": [], "var": "", "tab": [], "lines": lines[1:]}
     for ln in lines[1:]:
-        m = re.match(r"^(\S+) = (-?\d+)$", ln)
+        m = re.match(r"^(.+) = (-?\d+)$", ln)
         if m:
             facts["asg"].append([m.group(1), int(m.group(2))])
             continue
-        m = re.match(r"^variable: (\S+)$", ln)
+        m = re.match(r"^variable: (.+)$", ln)
         if m:
             facts["var"] = m.group(1)
             continue
